@@ -28,6 +28,8 @@ CHECKS = {
          "for every enumerated term, every offset and every exact algorithm setting diag and trace are compared (value, length, dtype) with the reference matrix, and every structural rule with the generic probing algorithm on the same operator"),
  "C11": ("positive-definite (cholesky) and non-singular (plu) operator terms over Dense/Identity/Diagonal/ScalarMul/... with Kronecker (2-3 factors) and BlockDiag (multiplicities) nestings to depth 2; triangularity, reconstruction and structure of the returned factors",
          "for every enumerated term the returned factors are densified and checked for exact triangularity, permutation-matrix form, reconstruction of the reference matrix, and (for Kronecker / BlockDiag inputs) factor-wise structure"),
+ "C09": ("spectrum-controlled operators (PSD, general real with conjugate pairs / complex, singular PSD, Diagonal) and every structural rule nested to depth 2 x 17 functions x 8 algorithm settings x 3 operands; f(A)x from the eigendecomposition of the reference (scipy cross-check), algebraic identities",
+         "for every enumerated (operator, function, algorithm) the action of the returned operator on 2-3 operands is compared with f(A)x computed from the reference eigendecomposition, plus sqrt-twice, pow(-1)-solves and integer-power identities"),
 }
 PENDING = {}
 props = [json.loads(l) for l in open(os.path.join(ROOT, "properties.jsonl"))]
